@@ -32,7 +32,7 @@ RULE = ('tables: enumerated completely on every run (16 Clifford pairs x 2 spell
         'sign / a non-zero matrix was compared or a rejection was required, distinct = the entry itself. '
         'K_n and the 30 other special functions are SAMPLED: orders 0..6 on each point of a log grid of arguments in (0.05, 20) (200 quick / 2000 thorough, '
         'jittered by the seed), other functions on 20 (quick) / 120 (thorough) points per parameter choice inside the domain; argument observables on one chain, '
-        'two replicas, chain + covariance input, covariance only; non-trivial when the reference derivative is non-zero; distinct = (function, parameters, argument digest). Second hardening: logsumexp with 12 / 40 / 120 arguments, with a spectator argument of weight exactly 0 in the first / middle / last slot and with arguments near +-800; function objects re-used across cases and fresh ones with equal code; arguments compared with their digest before the call, the same argument objects applied a second time; all tables evaluated once more at the end of every worker process; counters judged:<mechanism> give the number of evaluations of every judgement. Boundary kind: about 75 regular points at which a derivative rule may be singular or degenerate (argument exactly 0 for iv / ive / jn / j0 / j1 / i0 / i1 / erf / erfc / erfinv / expit, erfcinv at 1, logit at 1/2, zeros of gammaln, zeros of 1/Gamma, integer and negative orders of iv / ive / jn / yn / kn incl. float and numpy-integer orders, negative arguments, expit(+-800), erf(+-30)), each on four observable layouts whose central value and replica means hit the point exactly, 12 (quick) / 60 (thorough) times')
+        'two replicas, chain + covariance input, covariance only; non-trivial when the reference derivative is non-zero; distinct = (function, parameters, argument digest). Second hardening: logsumexp with 12 / 40 / 120 arguments, with a spectator argument of weight exactly 0 in the first / middle / last slot and with arguments near +-800; function objects re-used across cases and fresh ones with equal code; arguments compared with their digest before the call, the same argument objects applied a second time; all tables evaluated once more at the end of every worker process; counters judged:<mechanism> give the number of evaluations of every judgement. Degenerate kind: non-integer orders of K_n must be refused (number and observable argument), logsumexp of one argument and of all-equal arguments, beta / betaln with equal central values on different data. Boundary kind: about 75 regular points at which a derivative rule may be singular or degenerate (argument exactly 0 for iv / ive / jn / j0 / j1 / i0 / i1 / erf / erfc / erfinv / expit, erfcinv at 1, logit at 1/2, zeros of gammaln, zeros of 1/Gamma, integer and negative orders of iv / ive / jn / yn / kn incl. float and numpy-integer orders, negative arguments, expit(+-800), erf(+-30)), each on four observable layouts whose central value and replica means hit the point exactly, 12 (quick) / 60 (thorough) times')
 ASSUMPTIONS = ['mpmath besselk/besselj/.../gammainc/betainc at 40 digits are correct; derivatives by a 50-digit symmetric difference quotient validated against mpmath.diff; K_n from the upward recurrence, cross-checked against direct besselk and (closed-form vs numerical) derivative on every 16th argument',
                'special-function values in double precision (scipy) are compared at rtol 1e-11 (1e-9 for inverse / incomplete functions), derivatives at 1e-10 / 1e-8 of the fluctuation scale',
                'derivatives are only claimed with respect to the arguments autograd differentiates (not the order of jn/yn/iv/ive/polygamma, not a of gammainc/betainc)',
@@ -205,7 +205,7 @@ def plan(tier):
     nk, _ = grid_sizes(tier)
     # table kinds come in at most 51 cases each, so the round-robin over kinds finishes every table within the first 51 rounds
     return [('algebra', len(ALGEBRA)), ('grid_tag', len(TAGS)), ('grid_held', 3), ('eps3', 5), ('eps4', 25), ('eps_out', len(EPS_OUT)),
-            ('kn', nk), ('special', len(special_cases(tier))), ('boundary', len(BOUNDARY) * (12 if tier == 'quick' else 60))]
+            ('kn', nk), ('special', len(special_cases(tier))), ('boundary', len(BOUNDARY) * (12 if tier == 'quick' else 60)), ('degenerate', len(DEGENERATE) * (8 if tier == 'quick' else 40))]
 
 
 # ------------------------------------------------------------------------------------------
@@ -661,6 +661,54 @@ def run_boundary(ctx, idx, rng):
         ctx.sample({'function': name, 'parameters': list(consts), 'x': x0, 'variant': variant, 'value': res.value, 'reference_value': ref['value'], 'gradient': grads})
 
 
+DEGENERATE = ([('kn-order', v) for v in (0.5, -0.5, 1.0000001, 2.5, np.float64(3.5), 1e-9)] +
+              [('logsumexp', (0.5,)), ('logsumexp', (-2.0,)), ('logsumexp', (0.5, 0.5, 0.5)), ('logsumexp', (0.0, 0.0)), ('beta', (1.5, 1.5)), ('beta', (2.0, 2.0)),
+               ('betaln', (2.0, 2.0)), ('betaln', (0.5, 0.5))])
+
+
+def run_degenerate(ctx, idx, rng):
+    """a non-integer order of K_n must be refused (an order silently truncated would give the numbers of another function);
+    single-element and all-equal argument lists, arguments with equal central values on different data"""
+    what, par = DEGENERATE[idx % len(DEGENERATE)]
+    rep_ = idx // len(DEGENERATE)
+    sp = PE.special
+    ctx.cell('degenerate', what, repr(par))
+    if what == 'kn-order':
+        x = float(rng.uniform(0.1, 10.0))
+        o = exact_arg(rng, 1.0, VARIANTS[rep_ % 4])
+        for how, call in (('number', lambda: sp.kn(par, x)), ('observable', lambda: PE.derived_observable(lambda v, **kw: sp.kn(par, v[0]), [o]))):
+            ctx.ev()
+            jd(ctx, 'kn:non-integer-order-accepted')
+            ctx.count('kn_non_integer_orders')
+            try:
+                got = call()
+            except (TypeError, ValueError):
+                continue
+            ctx.violation('kn:non-integer-order-accepted', {'order': repr(par), 'argument': how, 'returned': repr(got)[:120]})
+        ctx.nontrivial.add(digest('kn-order', repr(par)))
+        return
+    name = what
+    variant = VARIANTS[rep_ % len(VARIANTS)]
+    args = [exact_arg(rng, x0, variant, k) for k, x0 in enumerate(par)]
+    ins = [snap(a) for a in args]
+    vals = [i['value'] for i in ins]
+    if vals != list(par):
+        ctx.count('boundary_argument_not_exact')
+        raise Skip()
+    f = getattr(sp, name)
+    if name == 'logsumexp':
+        import autograd.numpy as anp
+        m = len(par)
+
+        def libcall(v, **kw):
+            return f(anp.array([v[i] for i in range(m)]))
+    else:
+        def libcall(v, **kw):
+            return f(v[0], v[1])
+    apply_and_judge(ctx, name, (), args, ins, vals, 1e-11, 1e-10, libcall, 'special:' + name, variant, again=(rep_ % 2 == 1), exact_point=True)
+    ctx.count('degenerate_argument_lists')
+
+
 FUNCS = {}
 
 
@@ -740,7 +788,7 @@ def run_case(ctx, kind, idx, rng):
         run_case_inner(ctx, kind, idx, rng)
     finally:
         check_constants(ctx)
-        if kind in ('kn', 'special', 'boundary'):
+        if kind in ('kn', 'special', 'boundary', 'degenerate'):
             check_held(ctx)
 
 
@@ -765,5 +813,7 @@ def run_case_inner(ctx, kind, idx, rng):
         run_special(ctx, idx, rng)
     elif kind == 'boundary':
         run_boundary(ctx, idx, rng)
+    elif kind == 'degenerate':
+        run_degenerate(ctx, idx, rng)
     else:
         raise ValueError(kind)
